@@ -178,8 +178,8 @@ def gen_dns(rng, fault=None):
             while nm[pos] != 0:
                 k.append(pos)
                 pos += 1 + nm[pos]
-            j = rng.choice(k)
-            nm = nm[:j] + bytes([max(1, min(63, nm[j] + rng.choice([1, 1, 2, -1, 3, 62])))]) + nm[j + 1:]
+            j = rng.choice(k + [k[-1]] * 2)       # the last label (the one in front of the root) most often
+            nm = nm[:j] + bytes([max(1, min(63, nm[j] + rng.choice([1, 1, 1, 2, -1, 3, 62])))]) + nm[j + 1:]
         qs += nm + struct.pack('>HH', t, c)
     rrs = b''
     for _ in range(an):
@@ -584,4 +584,10 @@ def gen_frame(rng, w):
     if rng.chance(1, 15):
         f = mutate(rng, f)
         tags.append('mutated')
+    if len(f) < 60 and rng.chance(1, 4):
+        f = f + bytes(60 - len(f))            # padded to the Ethernet minimum
+        tags.append('eth-padded')
+    elif rng.chance(1, 20):
+        f = f + rng.bytes(1 + rng.below(8))   # stray trailer
+        tags.append('eth-trailer')
     return tags, f
